@@ -124,6 +124,9 @@ func GenRecord(r *rng.Rand, n *spec.Node, validPct int, o FrontOpts) any {
 	switch n.Kind {
 	case spec.Struct:
 		m := map[string]any{}
+		if r.Intn(12) == 0 {
+			return m // an empty object (the JSON document carries {} here)
+		}
 		for i := range n.Fields {
 			f := &n.Fields[i]
 			if f.Node.Kind != spec.Struct && r.Intn(100) < 12 {
@@ -159,6 +162,10 @@ func GenRecord(r *rng.Rand, n *spec.Node, validPct int, o FrontOpts) any {
 	if n.Kind == spec.String && len(n.Tests) == 0 && r.Intn(6) == 0 {
 		// text that looks like syntax of some source: quotes, escapes, separators
 		return []string{`"quoted"`, `""`, `'single'`, `a=b&c`, `x;y`, `100%`, `a+b`, `C:\dir`, `{"j":1}`, `[1]`, `$HOME`, `#frag`}[r.Intn(12)]
+	}
+	// a whole number for a float field, also one beyond 2^53 (a JSON document carries the digits; a Go map an int)
+	if (n.Kind == spec.Float64 || n.Kind == spec.Float32) && r.Intn(10) == 0 {
+		return []int{3, -40, 9007199254740993, -9007199254740995, 1152921504606846977}[r.Intn(5)]
 	}
 	// numbers standing for a bool (1 / 0) or a time (unix seconds): a JSON document carries them as float64, a Go map as int
 	if n.Kind == spec.Bool && r.Intn(8) == 0 {
